@@ -180,7 +180,10 @@ def _traffic_handshake(segsize):
             rig.run_for(0.5)
         if not ok:
             return ("handshake", f"segment size {segsize}: the blocking client did not connect")
-        snaps = [s for s in GeckoSnapshot.parse_log_file(path) if s.name == "Connection found"]
+        try:
+            snaps = [s for s in GeckoSnapshot.parse_log_file(path) if s.name == "Connection found"]
+        except Exception as e:  # noqa
+            return ("parse-raised", f"segment size {segsize}: parsing the traffic log raised {e!r}")
         if not snaps:
             return ("no-connection", f"segment size {segsize}: no connection found in the traffic log")
         got = snaps[0].bytes
@@ -214,9 +217,12 @@ def _traffic_tokens(job):
                 for i, sg in enumerate(segs):
                     nxt = 0 if i == len(segs) - 1 else i + 1
                     sock.dispatch_recevied_data(wire.frame(SPA_ID, b"IOSx", wire.statv(i, nxt, sg)), SPA_ADDR)
-            snaps = GeckoSnapshot.parse_log_file(path)
             exp = b"".join(segs)
-            got = snaps[0].bytes if snaps else None
+            try:
+                snaps = GeckoSnapshot.parse_log_file(path)
+                got = snaps[0].bytes if snaps else None
+            except Exception as e:  # noqa  - the parser must not choke on any segment content
+                got = f"<parse raised {e!r}>"
             if got != exp:
                 cls = "both-quotes" if ("'" in sstr and '"' in sstr) else ("quote" if ("'" in sstr or '"' in sstr) else "other")
                 bad.append((cls, f"segment content {payload!r}: traffic log reassembles to {got!r}, transferred {exp!r}"))
@@ -269,6 +275,15 @@ def _shipped_job(path):
                 out.append(("header", f"{tag}: client sees {spa.pack_class.name} cfg {spa.config_version} log {spa.log_version}"))
             if spa.intouch_version_en != "{0} v{1}.{2}".format(*s.intouch_EN):
                 out.append(("header", f"{tag}: firmware EN {spa.intouch_version_en} vs {s.intouch_EN}"))
+            # ... and keeps serving it unchanged: let the client's periodic refresh of the log range happen
+            n_ref = sum(1 for e in rig.man.events if e[1].name == "RUNNING_SPA_PACK_REFRESHED")
+            rig.loop.run_for(260.0, lambda: sum(1 for e in rig.man.events if e[1].name == "RUNNING_SPA_PACK_REFRESHED") > n_ref)
+            if sum(1 for e in rig.man.events if e[1].name == "RUNNING_SPA_PACK_REFRESHED") <= n_ref:
+                out.append(("refresh", f"{tag}: no refresh of the log range completed within 260 s"))
+            elif spa.struct.status_block != s.bytes:
+                d = [i for i in range(1024) if spa.struct.status_block[i] != s.bytes[i]]
+                out.append(("bytes", f"{tag}: after the client's refresh of the log range its block differs from the snapshot at "
+                                     f"{len(d)} offsets (first {d[:4]})"))
         rig.exit()
         rig.close()
     return name, len(snaps), out
